@@ -17,6 +17,7 @@ import (
 	"strconv"
 	"strings"
 	"sync"
+	"sync/atomic"
 
 	"cuelabs.dev/go/oci/ociregistry"
 	"cuelabs.dev/go/oci/ociregistry/ociclient"
@@ -77,6 +78,19 @@ func genContent(rng *rand.Rand, i int) []byte {
 	return b
 }
 
+// drain reads r to the end the way callers do: with io.ReadAll, or with io.Copy (which hands control
+// to the reader if it offers WriteTo). Either way a content mismatch has to surface as an error.
+var drainCount atomic.Int64
+
+func drain(r io.Reader) ([]byte, error) {
+	if drainCount.Add(1)%2 == 0 {
+		var buf bytes.Buffer
+		_, err := io.Copy(&buf, r)
+		return buf.Bytes(), err
+	}
+	return io.ReadAll(r)
+}
+
 type checker struct {
 	run  *evid.Run
 	kind string
@@ -94,7 +108,7 @@ func (c *checker) completeRead(what string, r ociregistry.BlobReader, err error,
 		return
 	}
 	d := r.Descriptor()
-	data, rerr := io.ReadAll(r)
+	data, rerr := drain(r)
 	r.Close()
 	lc := lenClass(len(want))
 	switch {
@@ -151,7 +165,7 @@ func (c *checker) rangeRead(repo string, content []byte, o0, o1 int64) {
 		return
 	}
 	d := r.Descriptor()
-	data, rerr := io.ReadAll(r)
+	data, rerr := drain(r)
 	r.Close()
 	want := content[o0:e]
 	if rerr != nil || !bytes.Equal(data, want) {
@@ -723,7 +737,7 @@ func corruptingPeer(run *evid.Run, n int) {
 			d := r.Descriptor()
 			var data []byte
 			var rerr error
-			run.Case("total/corrupted-read/"+method, w, func() { data, rerr = io.ReadAll(r) })
+			run.Case("total/corrupted-read/"+method, w, func() { data, rerr = drain(r) })
 			r.Close()
 			if rerr != nil {
 				run.Count("corrupted_reads_ended_in_error", 1)
@@ -814,7 +828,7 @@ func proxyRangeTruncation(run *evid.Run, n int) {
 		}
 		var data []byte
 		var rerr error
-		run.Case("total/proxy-range-read", w, func() { data, rerr = io.ReadAll(r) })
+		run.Case("total/proxy-range-read", w, func() { data, rerr = drain(r) })
 		r.Close()
 		if rerr != nil {
 			if c < 0 {
@@ -872,7 +886,7 @@ func concurrentPhase(run *evid.Run, round int, kind string) {
 					o0 := rng.Int64N(n)
 					o1 := o0 + 1 + rng.Int64N(n-o0)
 					if r, err := reg.GetBlobRange(bg, repo, d.Digest, o0, o1); err == nil {
-						data, rerr := io.ReadAll(r)
+						data, rerr := drain(r)
 						r.Close()
 						if rerr == nil && !bytes.Equal(data, c[o0:o1]) {
 							badMu.Lock()
@@ -882,7 +896,7 @@ func concurrentPhase(run *evid.Run, round int, kind string) {
 					}
 				default:
 					if r, err := reg.GetBlob(bg, repo, d.Digest); err == nil {
-						data, rerr := io.ReadAll(r)
+						data, rerr := drain(r)
 						r.Close()
 						if rerr == nil && model.Digest(data) != string(d.Digest) {
 							badMu.Lock()
